@@ -163,6 +163,21 @@ class Builtins:
         if name.startswith("fold:"):
             fn, sort = f.fold  # type: ignore
             return self.wrap_leaf(fn(self.as_int(args[0], node, fr)), sort)
+        if name.startswith("lfold:"):
+            _, key = f.fold  # type: ignore
+            lst = args[0]
+            if isinstance(lst, VOpt):
+                lst = self.unwrap(lst, node, fr, "folded list")
+            if not isinstance(lst, VList):
+                raise Unsupported(f"{name} of a non-list")
+            if key in lst.folds:
+                return VBool(lst.folds[key])
+            if lst.is_concrete():
+                acc: Any = z3.BoolVal(True)
+                for x in lst.tail:
+                    acc = f.step(acc, x)  # type: ignore
+                return VBool(acc)
+            raise Unsupported(f"{name} of a symbolic list without that fold")
         if name.startswith("gfold:"):
             sort, init, step = self.engine.global_folds[name[6:]]
             seq = self.as_str(args[0], node, fr)
@@ -1088,16 +1103,16 @@ class Builtins:
         raise Unsupported("python value conversion")
 
     def str_join(self, sep: VStr, seq: V, node: Any, fr: Frame) -> V:
+        if isinstance(seq, VOpt):
+            seq = self.unwrap(seq, node, fr, "joined value")
         if isinstance(seq, VLambda):
             return self.join_generator(sep, seq, node, fr)
         if isinstance(seq, VList) and not seq.is_concrete():
             key = "join:" + (sep.py if sep.py is not None else "?")
             if key not in seq.folds:
-                if seq.tail:
+                if seq.tail and sep.py is None:
                     raise Unsupported("join over a symbolic list without a join fold")
-                f = z3.Function("list_join", SEQ, z3.IntSort(), SEQ)
-                lid = z3.Int(self.path.fresh_name("$listid." + (seq.ident or "l")))
-                seq.folds[key] = f(sep.t, lid)
+                self.ensure_join_fold(seq, sep, node, fr)
             base = seq.folds[key]
             if sep.py == "":
                 view = self.iter_view(seq, node, fr)
@@ -1112,6 +1127,30 @@ class Builtins:
                 parts2.extend(sep.parts)
             parts2.extend(self.as_str(x, node, fr).parts)
         return VStr(parts2)
+
+    def ensure_join_fold(self, seq: VList, sep: VStr, node: Any, fr: Frame) -> Any:
+        """The ghost field ``sep.join(seq)`` of a symbolic list: an uninterpreted value for the symbolic base, the
+        items appended since then folded in by the definition of join."""
+        key = "join:" + (sep.py if sep.py is not None else "?")
+        if key in seq.folds:
+            return seq.folds[key]
+        f = z3.Function("list_join", SEQ, z3.IntSort(), SEQ)
+        lid = z3.Int(self.path.fresh_name("$listid." + (seq.ident or "l")))
+        cur = f(sep.t, lid)
+        if sep.py is not None and sep.py != "":
+            # the join of no items is empty
+            self.path.add_fact(z3.Implies(seq.base_len == 0, cur == z3.Empty(SEQ)))
+        elif sep.py == "":
+            self.path.add_fact(z3.Implies(seq.base_len == 0, cur == z3.Empty(SEQ)))
+        for j, x in enumerate(seq.tail):
+            sv = self.as_str(x, node, fr)
+            if sep.py == "":
+                cur = z3.Concat(cur, sv.t)
+            else:
+                first = (seq.base_len + j) == 0
+                cur = z3.If(first, sv.t, z3.Concat(cur, sep.t, sv.t))
+        seq.folds[key] = cur
+        return cur
 
     def join_generator(self, sep: VStr, gen: VLambda, node: Any, fr: Frame) -> V:
         """``"".join(f(c) for c in text)`` over a symbolic text: an uninterpreted map-join;
